@@ -60,8 +60,9 @@ C01_Original ==
   /\ {<<RPair(WitMap[e[1]], WitMap[e[2]])[1], RPair(WitMap[e[1]], WitMap[e[2]])[2], e[3]>> :
          e \in {f \in FEdges(O) : ~NodeOf(O, f[1]).isH /\ ~NodeOf(O, f[2]).isH}}
        = {<<b[1], b[2], b[3]>> : b \in ToSet(T.ref.bonds)}
+NoBlocks == "noblocks" \in DOMAIN T
 C10_SharedBelongsToBoth ==
-  \A n \in HeavyFine : n.id \in DOMAIN WitMap => FragOf(n) = ToSet(T.ref.atoms[WitMap[n.id]][4])
+  NoBlocks \/ \A n \in HeavyFine : n.id \in DOMAIN WitMap => FragOf(n) = ToSet(T.ref.atoms[WitMap[n.id]][4])
 
 HasRef == "ref" \in DOMAIN T
 
